@@ -208,6 +208,15 @@ func newGoType(typ reflect.Type) (*GoType, error) {
 	// Add the new type to the registry before calling newGoType recursively
 	goTypeRegistry[typ] = goType
 
+	// A type that cannot be registered must not stay behind half built: the
+	// next lookup would return it as if it were complete.
+	registered := false
+	defer func() {
+		if !registered {
+			delete(goTypeRegistry, typ)
+		}
+	}()
+
 	// Register the indirect type as well (recursive call!)
 	indirectGoType, err := newGoType(indirectType)
 	if err != nil {
@@ -259,6 +268,7 @@ func newGoType(typ reflect.Type) (*GoType, error) {
 		goType.attributeNames = append(goType.attributeNames, attrName)
 	}
 	sort.Strings(goType.attributeNames)
+	registered = true
 	return goType, nil
 }
 
